@@ -96,6 +96,10 @@ type Scenario struct {
 	// AFTER computing its answer: a context is arbitrary code and a goroutine may be preempted
 	// between a ctx.Err() check and what it does next; the delay widens exactly that window.
 	CtxHooks bool
+	// CancelOnReturn: a caller that owns its context cancels it as soon as its call returns (the
+	// `ctx, cancel := context.WithTimeout(...); defer cancel()` idiom). With early_return the items of the
+	// request are then still buffered or in flight under an ended context.
+	CancelOnReturn bool
 	// DelayAt: exact virtual delay for ONE hit of a hook point, keyed "point#hit" (hit = 0-based count of
 	// that point's hits in this run); overrides the table. Used by the delay-sweep layers, which perturb a
 	// base run by one (or two) precisely placed delays at a time.
@@ -127,7 +131,7 @@ func (sc *Scenario) Describe() map[string]any {
 	}
 	sort.Strings(hd)
 	return map[string]any{"label": sc.Label, "signal": sc.Sig.String(), "config": sc.Cfg.String(), "requests": reqs, "export_latency": fmt.Sprint(sc.Latency),
-		"export_fail": fmt.Sprint(sc.Fail), "shutdown_mode": sc.Shutdown, "hook_delays": hd, "callers_end_spans_on_return": sc.EndSpans}
+		"export_fail": fmt.Sprint(sc.Fail), "shutdown_mode": sc.Shutdown, "hook_delays": hd, "callers_end_spans_on_return": sc.EndSpans, "callers_cancel_their_context_on_return": sc.CancelOnReturn}
 }
 
 // ---------------------------------------------------------------- data with unique ids
